@@ -38,6 +38,8 @@ enum Arg {
     Expr(Val),
     Comma,
     Semi,
+    /// a call `F<j+1>%(n)` of the case's function number `j`; the function returns `n + 1`
+    Call(usize, i64),
 }
 
 #[derive(Clone, Copy, Debug, PartialEq, Eq, PartialOrd, Ord)]
@@ -68,6 +70,8 @@ struct Case {
     level: Level,
     open: Vec<u8>,
     stmts: Vec<Stmt>,
+    /// bodies of the FUNCTIONs the item lists may call: PRINT statements of their own
+    funcs: Vec<Vec<Stmt>>,
 }
 
 fn dec_literal(neg: bool, mant: u64, scale: u32) -> String {
@@ -132,6 +136,7 @@ fn stmt_source(s: &Stmt) -> String {
             Arg::Expr(v) => t.push_str(&val_source(v)),
             Arg::Comma => t.push(','),
             Arg::Semi => t.push(';'),
+            Arg::Call(j, n) => t.push_str(&format!("F{}%({})", j + 1, n)),
         }
     }
     t
@@ -143,12 +148,24 @@ fn file_name(h: u8, worker: usize) -> String {
 
 fn case_source(c: &Case, worker: usize) -> String {
     let mut t = String::new();
+    for j in 0..c.funcs.len() {
+        t.push_str(&format!("DECLARE FUNCTION F{}% (X%)\n", j + 1));
+    }
     for &h in &c.open {
         t.push_str(&format!("OPEN \"{}\" FOR OUTPUT AS #{}\n", file_name(h, worker), h));
     }
     for s in &c.stmts {
         t.push_str(&stmt_source(s));
         t.push('\n');
+    }
+    for (j, body) in c.funcs.iter().enumerate() {
+        t.push_str(&format!("FUNCTION F{}% (X%)\n", j + 1));
+        for s in body {
+            t.push_str("  ");
+            t.push_str(&stmt_source(s));
+            t.push('\n');
+        }
+        t.push_str(&format!("  F{}% = X% + 1\nEND FUNCTION\n", j + 1));
     }
     t
 }
@@ -168,35 +185,42 @@ fn val_sx(v: &Val) -> String {
     }
 }
 
-fn case_sx(c: &Case) -> String {
-    let mut t = String::from("(print.run (");
-    t.push_str(&c.open.iter().map(|h| h.to_string()).collect::<Vec<_>>().join(" "));
-    t.push_str(") (");
-    for s in &c.stmts {
-        t.push('(');
-        match s.dev {
-            Dev::Screen => t.push('s'),
-            Dev::Lpt1 => t.push('l'),
-            Dev::File(h) => t.push_str(&format!("(f {})", h)),
+fn stmt_sx(s: &Stmt) -> String {
+    let mut t = String::from("(");
+    match s.dev {
+        Dev::Screen => t.push('s'),
+        Dev::Lpt1 => t.push('l'),
+        Dev::File(h) => t.push_str(&format!("(f {})", h)),
+    }
+    match &s.fmt {
+        None => t.push_str(" n ("),
+        Some(f) => t.push_str(&format!(" (u {}) (", cps(f))),
+    }
+    for (k, a) in s.args.iter().enumerate() {
+        if k > 0 {
+            t.push(' ');
         }
-        match &s.fmt {
-            None => t.push_str(" n ("),
-            Some(f) => t.push_str(&format!(" (u {}) (", cps(f))),
+        match a {
+            Arg::Expr(v) => t.push_str(&val_sx(v)),
+            Arg::Comma => t.push('c'),
+            Arg::Semi => t.push('s'),
+            Arg::Call(j, n) => t.push_str(&format!("(k {} {})", j, n)),
         }
-        for (k, a) in s.args.iter().enumerate() {
-            if k > 0 {
-                t.push(' ');
-            }
-            match a {
-                Arg::Expr(v) => t.push_str(&val_sx(v)),
-                Arg::Comma => t.push('c'),
-                Arg::Semi => t.push('s'),
-            }
-        }
-        t.push_str("))");
     }
     t.push_str("))");
     t
+}
+
+fn case_sx(c: &Case) -> String {
+    let handles = c.open.iter().map(|h| h.to_string()).collect::<Vec<_>>().join(" ");
+    let stmts = c.stmts.iter().map(stmt_sx).collect::<Vec<_>>().join("");
+    if c.funcs.is_empty() {
+        format!("(print.run ({}) ({}))", handles, stmts)
+    } else {
+        let funcs: String =
+            c.funcs.iter().map(|b| format!("({})", b.iter().map(stmt_sx).collect::<Vec<_>>().join(""))).collect();
+        format!("(print.runf ({}) ({}) ({}))", handles, funcs, stmts)
+    }
 }
 
 // ------------------------------------------------------------------------------------------------
@@ -306,6 +330,7 @@ fn hand_lowered(c: &Case) -> InstructionGeneratorResult {
                 }
                 Arg::Comma => push(Instruction::PrintComma),
                 Arg::Semi => push(Instruction::PrintSemicolon),
+                Arg::Call(..) => unreachable!("calls are exercised at source level only"),
             }
         }
         push(Instruction::PrintEnd);
@@ -630,11 +655,26 @@ mod reference {
 
     /// A statement writes to its device item by item; a closed file is noticed when something is to be written
     /// (after the value has been laid out), or at the end of the statement.
-    fn stmt(sinks: &mut BTreeMap<Dev, Sink>, s: &Stmt) -> Result<(), E> {
+    ///
+    /// An item that calls a FUNCTION: the statements of the function's body run first, each a complete statement
+    /// on its own device; then the returned value is laid out by THIS statement, on its own device, with its own
+    /// format cursor; the newline decision at the end depends only on this statement's own last item.
+    fn stmt(sinks: &mut BTreeMap<Dev, Sink>, funcs: &[Vec<Stmt>], s: &Stmt) -> Result<(), E> {
         let fmt = s.fmt.as_ref();
         let mut cursor = 0usize;
         for a in &s.args {
             match a {
+                Arg::Call(j, n) => {
+                    for callee in &funcs[*j] {
+                        stmt(sinks, funcs, callee)?;
+                    }
+                    let v = Val::Int(*n + 1);
+                    let t = match fmt {
+                        None => plain_text(&v),
+                        Some(f) => using_value(f, &mut cursor, &v)?,
+                    };
+                    sinks.get_mut(&s.dev).ok_or(E::NoFile)?.text(&t);
+                }
                 Arg::Expr(v) => {
                     let t = match fmt {
                         None => plain_text(v),
@@ -666,7 +706,7 @@ mod reference {
         }
         let mut status = "ok";
         for s in &c.stmts {
-            match stmt(&mut sinks, s) {
+            match stmt(&mut sinks, &c.funcs, s) {
                 Ok(()) => {}
                 Err(e) => {
                     status = match e {
@@ -831,7 +871,129 @@ fn gen_history(rng: &mut Rng) -> Case {
     for d in [Dev::Screen, Dev::Lpt1].into_iter().chain(open.iter().map(|h| Dev::File(*h))) {
         stmts.push(Stmt { dev: d, fmt: None, args: vec![Arg::Comma, Arg::Expr(Val::Str(vec!['|']))] });
     }
-    Case { part: "history", level: Level::Source, open, stmts }
+    Case { part: "history", level: Level::Source, open, stmts, funcs: vec![] }
+}
+
+/// One statement of the call family: mostly well formed (numeric pictures for USING), items may call one of the
+/// functions `0..callable`.
+fn gen_call_stmt(rng: &mut Rng, devs: &[Dev], callable: usize, force_call: bool) -> Stmt {
+    const NUMFMT: [&str; 7] = ["##.#", "A: # B: # C", "###,###", "[##]", "#", "## and ## ", "x"];
+    let dev = *rng.pick(devs);
+    let using = rng.chance(3, 10);
+    let fmt: Option<Vec<char>> = if using { Some(rng.pick(&NUMFMT).chars().collect()) } else { None };
+    let n = if rng.chance(1, 6) { 0 } else { rng.range(1, 6) };
+    let mut args: Vec<Arg> = vec![];
+    for _ in 0..n {
+        let last_is_value = matches!(args.last(), Some(Arg::Expr(_)) | Some(Arg::Call(..)));
+        let r = rng.below(10);
+        if !last_is_value && r < 6 {
+            if callable > 0 && rng.chance(1, 2) {
+                args.push(Arg::Call(rng.below(callable as u64) as usize, rng.range(-3, 40)));
+            } else if using {
+                args.push(Arg::Expr(Val::Int(rng.range(-99, 999))));
+            } else {
+                args.push(Arg::Expr(gen_value(rng)));
+            }
+        } else if r % 2 == 0 {
+            args.push(Arg::Comma);
+        } else {
+            args.push(Arg::Semi);
+        }
+    }
+    if force_call && callable > 0 && !args.iter().any(|a| matches!(a, Arg::Call(..))) {
+        if matches!(args.last(), Some(Arg::Expr(_))) {
+            args.push(if rng.chance(1, 2) { Arg::Semi } else { Arg::Comma });
+        }
+        args.push(Arg::Call(rng.below(callable as u64) as usize, rng.range(-3, 40)));
+        if rng.chance(1, 3) {
+            args.push(Arg::Semi);
+            args.push(Arg::Expr(Val::Str(vec!['z'])));
+        } else if rng.chance(1, 3) {
+            args.push(if rng.chance(1, 2) { Arg::Semi } else { Arg::Comma });
+        }
+    }
+    Stmt { dev, fmt, args }
+}
+
+/// PRINT lists that call FUNCTIONs which print themselves: bare PRINT, PRINT with items, PRINT to another device,
+/// PRINT USING with another format, ending with and without a separator; calls nest (a function may call the
+/// functions before it).
+fn gen_call_case(rng: &mut Rng) -> Case {
+    let open: Vec<u8> = if rng.chance(1, 12) { vec![1] } else { vec![1, 2] };
+    let devs = [Dev::Screen, Dev::Lpt1, Dev::File(1), Dev::File(2), Dev::Screen];
+    let nfuncs = rng.range(1, 3) as usize;
+    let mut funcs: Vec<Vec<Stmt>> = vec![];
+    for j in 0..nfuncs {
+        let mut body = vec![];
+        for _ in 0..rng.range(1, 3) {
+            if rng.chance(1, 4) {
+                body.push(Stmt { dev: *rng.pick(&devs), fmt: None, args: vec![] });
+            } else {
+                body.push(gen_call_stmt(rng, &devs, j, false));
+            }
+        }
+        funcs.push(body);
+    }
+    let mut stmts = vec![];
+    for k in 0..rng.range(2, 6) {
+        let force = k == 0 || rng.chance(1, 2);
+        stmts.push(gen_call_stmt(rng, &devs, nfuncs, force));
+    }
+    for d in [Dev::Screen, Dev::Lpt1].into_iter().chain(open.iter().map(|h| Dev::File(*h))) {
+        stmts.push(Stmt { dev: d, fmt: None, args: vec![Arg::Comma, Arg::Expr(Val::Str(vec!['|']))] });
+    }
+    Case { part: "calls", level: Level::Source, open, stmts, funcs }
+}
+
+/// The programs on which the two defects repaired by 89314cd were first seen, and their neighbours.
+fn fixed_call_cases() -> Vec<Case> {
+    let s = |t: &str| Arg::Expr(Val::Str(t.chars().collect()));
+    let i = |n: i64| Arg::Expr(Val::Int(n));
+    let bare = |d: Dev| Stmt { dev: d, fmt: None, args: vec![] };
+    let fm = |t: &str| Some(t.chars().collect::<Vec<char>>());
+    let mut v = vec![];
+    let mut add = |funcs: Vec<Vec<Stmt>>, stmts: Vec<Stmt>| {
+        let mut stmts = stmts;
+        for d in [Dev::Screen, Dev::Lpt1, Dev::File(1), Dev::File(2)] {
+            stmts.push(Stmt { dev: d, fmt: None, args: vec![Arg::Comma, Arg::Expr(Val::Str(vec!['|']))] });
+        }
+        v.push(Case { part: "calls", level: Level::Source, open: vec![1, 2], stmts, funcs });
+    };
+    // PRINT 1; F%(2) with a bare PRINT inside
+    add(vec![vec![bare(Dev::Screen)]], vec![Stmt { dev: Dev::Screen, fmt: None, args: vec![i(1), Arg::Semi, Arg::Call(0, 2)] }]);
+    // PRINT #1, "a"; F%(2); "z" with a PRINT inside
+    add(
+        vec![vec![Stmt { dev: Dev::Screen, fmt: None, args: vec![s("in")] }]],
+        vec![Stmt { dev: Dev::File(1), fmt: None, args: vec![s("a"), Arg::Semi, Arg::Call(0, 2), Arg::Semi, s("z")] }],
+    );
+    // PRINT #1, USING "##.#"; F%(3) with a PRINT inside
+    add(
+        vec![vec![bare(Dev::Screen)]],
+        vec![Stmt { dev: Dev::File(1), fmt: fm("##.#"), args: vec![Arg::Call(0, 3), Arg::Semi, i(4)] }],
+    );
+    // callee ends with a separator; caller ends without / with one; other devices; USING with another format
+    for callee_dev in [Dev::Screen, Dev::Lpt1, Dev::File(2)] {
+        for caller_dev in [Dev::Screen, Dev::Lpt1, Dev::File(1)] {
+            for callee_sep in [None, Some(Arg::Semi), Some(Arg::Comma)] {
+                for caller_sep in [None, Some(Arg::Semi), Some(Arg::Comma)] {
+                    for (callee_fmt, caller_fmt) in [(None, None), (fm("[##]"), None), (None, fm("A: # B: # C")), (fm("#.#"), fm("## and ## "))] {
+                        let mut cargs = vec![i(7)];
+                        cargs.extend(callee_sep.clone());
+                        let mut margs = vec![i(1), Arg::Comma, Arg::Call(0, 2), Arg::Semi, Arg::Call(0, 5)];
+                        margs.extend(caller_sep.clone());
+                        add(
+                            vec![vec![Stmt { dev: callee_dev, fmt: callee_fmt, args: cargs }]],
+                            vec![
+                                Stmt { dev: caller_dev, fmt: caller_fmt, args: margs },
+                                Stmt { dev: caller_dev, fmt: None, args: vec![s("next")] },
+                            ],
+                        );
+                    }
+                }
+            }
+        }
+    }
+    v
 }
 
 fn zone_cases() -> Vec<Case> {
@@ -861,7 +1023,7 @@ fn zone_cases() -> Vec<Case> {
                 for d in devs {
                     stmts.push(Stmt { dev: d, fmt: None, args: vec![Arg::Expr(Val::Str(vec!['.']))] });
                 }
-                v.push(Case { part: "zone", level: Level::Source, open: vec![1, 2], stmts });
+                v.push(Case { part: "zone", level: Level::Source, open: vec![1, 2], stmts, funcs: vec![] });
             }
         }
     }
@@ -915,6 +1077,7 @@ fn using_cases(level: Level, len: usize, idx: u64) -> [Case; 2] {
             level,
             open: if level == Level::Source { vec![1, 2] } else { vec![] },
             stmts,
+            funcs: vec![],
         }
     };
     [mk(&nums[k], idx % 2 == 0), mk(&strs[k], idx % 2 == 1)]
@@ -1010,6 +1173,7 @@ fn check_batch(cases: &[Case], worker: usize) -> Partial {
             ("history", _) => "history.non-ascii",
             ("zone", _) => "zone",
             ("using-src", _) => "using.source-level",
+            ("calls", _) => "calls.function-prints-inside-print-list",
             _ => "using.instruction-level",
         });
         keys.push(match want.status.as_str() {
@@ -1043,7 +1207,8 @@ fn check_batch(cases: &[Case], worker: usize) -> Partial {
             }),
             Some(m) => {
                 compare(&mut p, Kind::ModelVsImpl, c, &text, &real, &m.outcome, "RbModel.Print (Lean)");
-                if let Some(t) = tags {
+                // (with functions the bodies' instructions are laid out after the main program: order differs)
+                if let Some(t) = tags.filter(|_| c.funcs.is_empty()) {
                     if t != m.tags {
                         p.failures.push(Failure {
                             kind: Kind::ModelVsImpl,
@@ -1177,6 +1342,18 @@ fn main() {
     let n_hist = if thorough { 120_000 } else { 5_000 };
     let hist: Vec<Case> = (0..n_hist).map(|_| gen_history(&mut rng)).collect();
     run_work(chunked(hist, 200), &mut rep);
+
+    // ---- 1b. PRINT lists that call FUNCTIONs which print themselves ------------------------------------
+    let fixed = fixed_call_cases();
+    rep.exhaustive_parts.push(format!(
+        "function called from a PRINT list and printing itself: callee device x caller device x callee/caller trailing \
+         separator x plain/USING on either side ({} programs), plus the three programs of repo fix 89314cd",
+        fixed.len() - 3
+    ));
+    run_work(chunked(fixed, 40), &mut rep);
+    let n_calls = if thorough { 40_000 } else { 3_000 };
+    let calls: Vec<Case> = (0..n_calls).map(|_| gen_call_case(&mut rng)).collect();
+    run_work(chunked(calls, 200), &mut rep);
 
     // ---- 2. zone arithmetic, enumerated -------------------------------------------------------------
     let zones = zone_cases();
